@@ -81,7 +81,14 @@ def gen_client_scenario(rng):
     ops = [f"creset delay={delay} size={size} latest={latest} pos={pos}"]
     nid = 0
     nkeys = rng.choice([0, 2, 3])
+    subbed = True
+    p_unsub = rng.choice([0.0, 0.08, 0.15])
     for _ in range(rng.choice([4, 8, 14, 24])):
+        if rng.random() < p_unsub:
+            # unsubscribe (and later resubscribe) while pushes may sit in the channel batch
+            ops.append("cunsub" if subbed else "csub")
+            subbed = not subbed
+            continue
         if rng.random() < 0.75:
             nid += 1
             f = rng.choice(['p', 'p', 'p', 'p', 'j', 'l'])
@@ -99,6 +106,7 @@ def client_oracle(sc, out):
     latest, delay = cfg["latest"] == "1", int(cfg["delay"])
     size = int(cfg["size"])
     kinds, keys, delivered, pending = {}, {}, [], []
+    subbed, dropped = True, set()
 
     def spec(pend):
         if not latest:
@@ -122,13 +130,26 @@ def client_oracle(sc, out):
             kv = kvs(op)
             i = int(kv["id"])
             kinds[i], keys[i] = kv["f"], kv.get("key", "0")
-            pending.append(i)
+            if subbed:
+                pending.append(i)
+            else:
+                dropped.add(i)
+        if ws[0] == "cunsub":
+            # the subscription ends here: what is still batched for the channel must never be delivered
+            dropped.update(pending)
+            pending = []
+            subbed = False
+        if ws[0] == "csub":
+            subbed = True
         got = [int(x) for x in o[len("seq=["):-1].split(",") if x]
         for i in got:
             if i not in kinds:
                 return f"at `{op}` the connection received push {i} that was never produced"
             if i in delivered:
                 return f"push {i} delivered twice"
+            if i in dropped:
+                return (f"at `{op}` push {i}, produced before the unsubscribe (or while unsubscribed), was delivered "
+                        f"after the subscription ended")
             delivered.append(i)
         if got:
             # one op causes at most one flush of the channel's batch
